@@ -76,7 +76,7 @@ def sym(modname, fnname, timeout, seed):
 def replay(modname, fnname, call):
     """Returns reproduced=True when the call returns a false value or raises."""
     funcs = set()
-    repo = os.path.realpath("/repo") + os.sep
+    repo = os.path.realpath(os.environ.get("VF_REPO", "/repo")) + os.sep
 
     def prof(frame, event, arg):
         if event == "call":
